@@ -1,5 +1,14 @@
 """C04 - per-member load is conserved; removed members drain, then close."""
 from props.lbcommon import LBCheck
+from props.fullcommon import FullCheck
+
+
+class _FullStackLoad(FullCheck):
+  """Every 4th case: a complete client stack (real transports, pools, timeout sink) on the
+  simulated network; judged at final quiescence only."""
+  ID = 'C04'
+  FOCUS = ('load:',)
+  REQUIRED_CLASSES = ()
 
 
 class C04(LBCheck):
@@ -10,11 +19,24 @@ class C04(LBCheck):
           '(load - Idle mod Penalty) == outstanding requests of that member incarnation in the '
           'reference model, never negative, aperture total == sum; "Decrementing load below Zero" '
           'never logged. Removal/contraction: no request afterwards, Close at once iff idle or marked '
-          'down, else exactly when drained. non-trivial = a dispatch or removal judged; distinct as C03')
+          'down, else exactly when drained. Every 4th case instead drives a complete real client stack '
+          '(C01\'s scenarios: real transports, pools, timeouts, faults, membership changes) and requires every '
+          'balancer node to carry load 0 at final quiescence (all calls completed, quiet for 4 T_max). '
+          'non-trivial = a dispatch or removal judged; distinct as C03')
   REQUIRED_CLASSES = ('heap', 'aperture', 'removed:idle', 'removed:loaded', 'removed:down', 'removed:down+loaded',
                       'rejoin-while-draining', 'complete:reply', 'complete:error', 'complete:timeout',
-                      'complete:fault', 'late-reply-after-timeout', 'contraction')
+                      'complete:fault', 'late-reply-after-timeout', 'contraction', 'full-stack')
   ASSUMPTIONS = ('white-box read of node.load, as named by the property (observe_at)',)
+
+  def run_case(self, env, rng, idx, tier):
+    if idx % 4 == 3:
+      if not hasattr(self, '_full'):
+        self._full = _FullStackLoad()
+      res = self._full.run_case(env, rng, idx, tier)
+      res.classes = sorted(set(res.classes) | {'full-stack'})
+      res.sig = ('full-stack', res.sig)
+      return res
+    return LBCheck.run_case(self, env, rng, idx, tier)
 
   def profile(self, rng, tier):
     return {'dispatch': 40, 'complete': 24, 'down': 6, 'up': 3, 'leave': 12, 'join': 9, 'advance': 8}
